@@ -220,6 +220,8 @@ pub struct App {
     dgram_next: u32,
     dgram_blocked: bool,
     pub events_seen: u64,
+    /// configured datagram send buffer (for the admission model)
+    pub dgram_send_buf: Option<usize>,
     /// log of application-visible history (for C04 / C20 comparisons)
     pub history: Vec<String>,
     pub record_history: bool,
@@ -248,6 +250,7 @@ impl App {
             dgram_next: 0,
             dgram_blocked: false,
             events_seen: 0,
+            dgram_send_buf: None,
             history: vec![],
             record_history: false,
         }
@@ -300,6 +303,8 @@ impl App {
                     led.violate("C11", format!("pair {:x}: second Connected event", self.pair));
                 }
                 self.connected = true;
+                // limits become known (or change) with the handshake: retry opens now
+                self.waiting_available = [false; 2];
                 self.try_open(conn, led);
                 self.pump_dgrams(conn, led);
                 // 0-RTT rejection may have invalidated early streams: jobs are re-driven by
@@ -367,6 +372,7 @@ impl App {
                     if let Some(j) = self.jobs.get_mut(&sid_u64(id)) {
                         j.done = true;
                     }
+                    self.reset_after_stop(conn, id, error_code, led);
                 }
                 StreamEvent::Available { dir } => {
                     self.hist(|| format!("Available({dir:?})"));
@@ -385,6 +391,18 @@ impl App {
                 self.dgram_blocked = false;
                 self.pump_dgrams(conn, led);
             }
+        }
+    }
+
+    /// quinn-proto leaves it to the application to abandon a stopped stream (the async layer
+    /// does the same in `SendStream::drop`): reset it with the peer's code.
+    fn reset_after_stop(&mut self, conn: &mut Connection, id: StreamId, code: VarInt, led: &mut Ledger) {
+        if conn.send_stream(id).reset(code).is_ok() {
+            let f = led.flow(self.pair, self.is_client(), sid_u64(id));
+            if f.reset.is_none() {
+                f.reset = Some(code.into_inner());
+            }
+            led.cnt.inc("app.reset_after_stop");
         }
     }
 
@@ -496,6 +514,10 @@ impl App {
                                 if want != Some(c.into_inner()) {
                                     led.violate("C11", format!("finish: Stopped({c}) but receiver stop was {want:?}"));
                                 }
+                                if conn.send_stream(job.sid).reset(c).is_ok() {
+                                    let f = led.flow(pair, is_client, sid);
+                                    f.reset.get_or_insert(c.into_inner());
+                                }
                             }
                             Err(FinishError::ClosedStream) => {
                                 if conn.is_closed() || f.stopped_seen.is_some() {
@@ -521,6 +543,7 @@ impl App {
             }
             self.scratch.resize(n, 0);
             payload_fill(key, job.written, &mut self.scratch);
+            let probe_before = if self.rng.below(8) == 0 { Some(conn.verif_probe().streams) } else { None };
             let res: Result<usize, WriteError> = if job.use_write_chunks {
                 // split into up to 3 Bytes chunks
                 let a = n / 3;
@@ -537,6 +560,19 @@ impl App {
             match res {
                 Ok(w) => {
                     led.cnt.inc("app.write_ok");
+                    if let Some(b) = probe_before {
+                        let a = conn.verif_probe().streams;
+                        led.cnt.inc("c05.unacked_checks");
+                        if a.unacked_data > b.send_window.max(b.unacked_data) {
+                            led.violate(
+                                "C05",
+                                format!("pair {pair:x} sid {sid}: write of {w} bytes took unacked_data from {} to {} above send_window {}", b.unacked_data, a.unacked_data, b.send_window),
+                            );
+                        }
+                        if a.data_sent > a.max_data {
+                            led.violate("C05", format!("pair {pair:x} sid {sid}: data_sent {} exceeds peer max_data {}", a.data_sent, a.max_data));
+                        }
+                    }
                     if w == 0 || w > n {
                         led.violate("C05", format!("pair {pair:x} sid {sid}: write({n}) returned {w}"));
                         job.done = true;
@@ -567,6 +603,10 @@ impl App {
                         led.violate("C11", format!("write: Stopped({c}) but receiver stop was {want:?}"));
                     }
                     led.cnt.inc("app.write_stopped");
+                    if conn.send_stream(job.sid).reset(c).is_ok() {
+                        let f = led.flow(pair, is_client, sid);
+                        f.reset.get_or_insert(c.into_inner());
+                    }
                     job.done = true;
                     return;
                 }
@@ -779,6 +819,31 @@ impl App {
             let space_before = conn.datagrams().send_buffer_space();
             let r = conn.datagrams().send(Bytes::from(data), drop);
             led.cnt.inc("c16.send_calls");
+            if let Some(sbuf) = self.dgram_send_buf {
+                // admission model: TooLarge iff len > min(max_size, send buffer); Blocked iff
+                // !drop and queued + len > send buffer; otherwise Ok
+                led.cnt.inc("c16.admission_checks");
+                let queued = sbuf.saturating_sub(space_before);
+                let expect = if len > max.min(sbuf) {
+                    "TooLarge"
+                } else if !drop && queued + len > sbuf {
+                    "Blocked"
+                } else {
+                    "Ok"
+                };
+                let got = match &r {
+                    Ok(()) => "Ok",
+                    Err(SendDatagramError::TooLarge) => "TooLarge",
+                    Err(SendDatagramError::Blocked(_)) => "Blocked",
+                    Err(_) => "Other",
+                };
+                if got != expect {
+                    led.violate(
+                        "C16",
+                        format!("send(len={len}, drop={drop}) -> {got}, model says {expect} (max_size={max}, send buffer={sbuf}, queued={queued})"),
+                    );
+                }
+            }
             match r {
                 Ok(()) => {
                     if len > max {
